@@ -448,16 +448,34 @@ func smallLengths(b []byte) bool {
 	return true
 }
 
+// presentTypeStream: the type of the byte behind one of the start codes of `in`, two times out of three.
+func presentTypeStream(hevcMode bool, r *hx.Rng, in []byte) int {
+	var ts []int
+	for i := 0; i+3 < len(in); i++ {
+		if in[i] == 0 && in[i+1] == 0 && in[i+2] == 1 {
+			ts = append(ts, typeOf(hevcMode, in[i+3:i+4]))
+		}
+	}
+	k, pick := r.Intn(3), r.U64()
+	if len(ts) > 0 && k != 0 {
+		return ts[pick%uint64(len(ts))]
+	}
+	if hevcMode {
+		return hevcTypes[pick%uint64(len(hevcTypes))]
+	}
+	return avcTypes[pick%uint64(len(avcTypes))]
+}
+
 func streamFns(hevcMode bool, r *hx.Rng, in []byte) {
 	emit("scan", "-", in)
 	emit("b2s", "-", in)
 	emit("enb", "-", in)
 	if hevcMode {
 		emit("hevc_gpsb", "-", in)
-		emit("hevc_enot", fmt.Sprintf("%d,%d", hevcTypes[r.Intn(len(hevcTypes))], r.Intn(2)), in)
+		emit("hevc_enot", fmt.Sprintf("%d,%d", presentTypeStream(true, r, in), r.Intn(2)), in)
 	} else {
 		emit("avc_gpsb", "-", in)
-		emit("avc_enot", fmt.Sprintf("%d,%d", avcTypes[r.Intn(len(avcTypes))], r.Intn(2)), in)
+		emit("avc_enot", fmt.Sprintf("%d,%d", presentTypeStream(false, r, in), r.Intn(2)), in)
 		emit("avc_gfv", "-", in)
 	}
 }
